@@ -143,7 +143,8 @@ def _run(ck):
     I4, _ = c05.dyn_interp(L)
     TD = {'bool': ('Concrete', c05.BOOL), 'int': ('Concrete', c05.INT), 'uint': ('Concrete', c05.UINT), 'double': ('Concrete', c05.DOUBLE),
           'QString': ('Concrete', c05.STRING), 'enum': ('Concrete', c05.E1), 'pointer': ('Concrete', c05.PA), 'int-literal': ('ConstInteger',),
-          'string-literal': ('ConstString',), 'list': ('Concrete', c05.LS), 'QVariant': ('Concrete', c05.VARIANT)}
+          'string-literal': ('ConstString',), 'list': ('Concrete', c05.LS), 'QVariant': ('Concrete', c05.VARIANT),
+          'null': ('NullPointer',), 'flags': ('Concrete', c05.E2), 'scoped-enum': ('Concrete', c05.E3)}
 
     def cxx_type(name):
         return {'int-literal': 'int', 'string-literal': 'QString'}.get(name, name)
